@@ -181,6 +181,12 @@ class AModel(Model):
             return outs
         if obj[0] == 'dict':
             return self.literal_dict_op(obj, '__getitem__', (idx,), st, line)
+        if obj[0] == 'attr' and obj[1] == SELF and not on_self_store(obj) and not is_const(idx):
+            # a container hanging on the instance (a handle-local table): the key may be missing
+            outs = [R(st, ('sub', obj, idx))]
+            if self.exc:
+                outs.append(R(st.fork(), None, 'KeyError', line))
+            return outs
         return None
 
     def sub_store(self, obj, idx, val, st, node):
@@ -198,6 +204,10 @@ class AModel(Model):
             return self.hdf_op(obj, 'set', (idx, val), st, line)
         if obj[0] == 'inst':
             return self.inst_op(obj, '__setitem__', (idx, val), st, line)
+        if obj[0] == 'attr' and obj[1] == SELF and not on_self_store(obj):
+            # filling a container that hangs on the instance (self._keys[name] = key) is handle-local state as well
+            st.emit('SELFSET', (C(obj[2] + '[...]'), idx, val), line)
+            return [R(st, NONE)]
         st.facts.setdefault('notnone', set()).add(obj)
         return None
 
@@ -478,6 +488,9 @@ class AModel(Model):
             kind, where = sql_kind(stmt)
             v = ('ev', 'sqlres', self.newid()) if kind != 'select' else ('ev', 'read', self.newid())
             return self.prim(st, 'SQL', (C(kind), C(where), f[1]), line, [GENERIC], val=v)
+        if f[0] == 'attr' and f[2] == 'rollback' and on_self_store(f[1]):
+            st.emit('ROLLBACK', (f[1],), line)
+            return [R(st, NONE)]
         if f[0] == 'attr' and f[2] == 'commit' and on_self_store(f[1]):
             st.emit('COMMIT', (f[1],), line)
             return [R(st, NONE)]
